@@ -131,7 +131,11 @@ func (wg *WaitGroup) Wait(ctx context.Context) {
 	// need this to wake up any waiters in the case that the
 	// context has been canceled, to avoid having many
 	// theads/waiters blocking.
-	go func() { <-ctx.Done(); wg.cond.Broadcast() }()
+	//
+	// the broadcast happens with the lock held: otherwise it
+	// can land between a waiter's check of the context and its
+	// call to cond.Wait, and be lost.
+	go func() { <-ctx.Done(); wg.mu.Lock(); defer wg.mu.Unlock(); wg.cond.Broadcast() }()
 
 	for {
 		select {
